@@ -30,17 +30,17 @@ func QuietLogger() *logrus.Entry {
 
 // World holds the global numbering of keys, events, bodies, internal transactions.
 type World struct {
-	Out      *bufio.Writer
-	Privs    []*ecdsa.PrivateKey
-	Peers    []*peers.Peer
-	KeyOrd   map[string]int // upper-case pub key hex -> ordinal
-	Eids     map[string]int // event hex -> eid
-	EvByEid  []*hg.Event
-	BodyOrd  map[string]int   // body hash hex -> ordinal
-	Bodies   map[int][][]byte // block index -> known body hashes
-	ItxOrd   map[string]int
-	Refused  map[int]bool // itx ordinals the application refuses
-	TxSerial int
+	Out        *bufio.Writer
+	Privs      []*ecdsa.PrivateKey
+	Peers      []*peers.Peer
+	KeyOrd     map[string]int // upper-case pub key hex -> ordinal
+	Eids       map[string]int // event hex -> eid
+	EvByEid    []*hg.Event
+	BodyOrd    map[string]int   // body hash hex -> ordinal
+	Bodies     map[int][][]byte // block index -> known body hashes
+	ItxOrd     map[string]int
+	Refused    map[int]bool // itx ordinals the application refuses
+	TxSerial   int
 	Violations int
 }
 
@@ -187,7 +187,7 @@ func TxSerialOf(tx []byte) int {
 type App struct {
 	// OnCommit, when set, is called at the end of every successful Commit callback with the
 	// block as received and the resulting state hash (used by cmd/crash for its durable delivery log).
-	OnCommit func(block hg.Block, state []byte)
+	OnCommit  func(block hg.Block, state []byte)
 	W         *World
 	State     []byte
 	Delivered []hg.Block // as received by the callback (before state hash)
@@ -226,27 +226,28 @@ func (a *App) Commit(block hg.Block) (proxy.CommitResponse, error) {
 
 // Node wraps one real core.
 type Node struct {
-	W       *World
-	ID      int // trace id
-	Self    int // key ordinal
-	Core    *node.VerifCore // nil for a bare Hashgraph
-	Hg      *hg.Hashgraph
-	Store   hg.Store
-	App     *App
-	shadow  map[string]string
-	known   map[int]int // creator ord -> last index dumped
-	fdLen   map[int]int
-	nDeliv  int
-	Inserted map[int]bool // eids successfully inserted in this node
-	Silent  bool
-	Faulty  bool // a store fault was injected: no longer compared with the model
-	WasReset bool // fast-forwarded at some point
-	Base     int  // index of Final[0] (anchor index + 1 after a fast-forward)
-	PendingFF bool // joiner waiting to fast-forward
-	FFTries  int
-	RoundDiverged bool // C13 known root cause observed on this reset node
-	Final   []*hg.Block // delivered blocks as stored after commit (pointers into store at delivery time)
-	FinalBody []string  // canonical body strings at delivery time
+	W             *World
+	ID            int             // trace id
+	Self          int             // key ordinal
+	Core          *node.VerifCore // nil for a bare Hashgraph
+	Hg            *hg.Hashgraph
+	Store         hg.Store
+	App           *App
+	shadow        map[string]string
+	known         map[int]int // creator ord -> last index dumped
+	fdLen         map[int]int
+	nDeliv        int
+	Inserted      map[int]bool // eids successfully inserted in this node
+	Silent        bool
+	Faulty        bool // a store fault was injected: no longer compared with the model
+	PassFaulty    bool // a write of a consensus pass failed
+	WasReset      bool // fast-forwarded at some point
+	Base          int  // index of Final[0] (anchor index + 1 after a fast-forward)
+	PendingFF     bool // joiner waiting to fast-forward
+	FFTries       int
+	RoundDiverged bool        // C13 known root cause observed on this reset node
+	Final         []*hg.Block // delivered blocks as stored after commit (pointers into store at delivery time)
+	FinalBody     []string    // canonical body strings at delivery time
 }
 
 // NewNode creates a core over the given store with peer set `current` and genesis set `genesis`.
